@@ -285,13 +285,29 @@ void start_searching(Uci* uci)
     uci->search->go();
 }
 
+namespace
+{
+// "e2e4", "e7e8q": what a move looks like in a searchmoves list
+bool is_move_text(const std::string& token)
+{
+    if (token.size() != 4 && token.size() != 5) return false;
+    for (int i : {0, 2})
+        if (token[i] < 'a' || token[i] > 'h' || token[i + 1] < '1' ||
+            token[i + 1] > '8')
+            return false;
+    return token.size() == 4 || std::string("nbrqNBRQ").find(token[4]) != std::string::npos;
+}
+}  // namespace
+
 bool Uci::go_command(std::istringstream& istream)
 {
     Limits limits;
     std::string token;
+    bool have_token = false;
 
-    while (istream >> token)
+    while (have_token || istream >> token)
     {
+        have_token = false;
         if (token == "ponder")
             limits.ponder = true;
         else if (token == "wtime")
@@ -316,9 +332,18 @@ bool Uci::go_command(std::istringstream& istream)
             limits.infinite = true;
         else if (token == "searchmoves")
         {
+            // the parameters of go come in any order: the move list ends at
+            // the first token that is not a move
             while (istream >> token)
+            {
+                if (!is_move_text(token))
+                {
+                    have_token = true;
+                    break;
+                }
                 limits.searchmoves[limits.searchmovesnum++] =
                     position.parse_uci(token);
+            }
         }
     }
 
